@@ -56,6 +56,13 @@ def gen_case(ctx, g):
             if kind == 'VARIANCE':
                 approx = True
             items.append(it)
+        elif x < 0.78:
+            # lower-case min / max / sum in their builtin meaning: several arguments, or one list argument
+            g0 = ('fld', 'a', r.randint(0, ngroup - 1))
+            form = r.choice([('bmax', [g0, ('lit', r.choice(['l', 'zz', 'a']))]), ('bmin', [g0, ('lit', 'l'), g0]),
+                             ('bmaxl', ('list', [g0, ('lit', 'k1')])), ('bminl', ('list', [g0, g0])), ('bsuml', ('list', [('len', g0), ('lit', 2), ('lit', 3)])),
+                             ('bmax', [('len', g0), ('lit', 2)]), ('bsuml', ('list', [])), ('bmaxl', ('list', [])), ('bmax', [g0, ('lit', 1)])])
+            items.append(('expr', form))
         elif x < 0.9:
             items.append(('expr', ('fld', 'a', r.randint(0, ngroup - 1))))
         else:
